@@ -333,6 +333,13 @@ pub fn c13_check(input: &[u8]) -> Vec<Fail> {
             }
         }
     }
+    if let Err(e) = &lo {
+        // "for every well-formed locale string the id equals ...": a well-formed locale string that Locale rejects has
+        // no id at all, so the clause fails for it (judged only in the oracle's must-accept zone)
+        if matches!(classify_locale(input), Zone::MustAccept(_)) {
+            out.push(fail("well-formed-locale-has-no-id", format!("well-formed locale string rejected with {:?}: there is no id to equal the language identifier of its prefix", e)));
+        }
+    }
     if let Ok(loc) = &lo {
         // id == LanguageIdentifier parsed from the part before the first singleton subtag
         let toks = refspec::split(input);
